@@ -28,11 +28,11 @@ type expEvent struct {
 type genLine struct {
 	Form    string    `json:"form"`
 	Line    string    `json:"line"`
-	Exp     *expEvent `json:"expected,omitempty"`       // nil: nothing is claimed about the event
-	OnlySrc bool      `json:"only_source,omitempty"`    // judge only source/port/outcome (C17 variants)
-	Forward bool      `json:"forward,omitempty"`        // an accepted authentication
-	Cred    string    `json:"cred,omitempty"`           // expected credential user id of the forwarded login
-	Method  string    `json:"method,omitempty"`         // expected metric method(s), "|"-separated alternatives
+	Exp     *expEvent `json:"expected,omitempty"`    // nil: nothing is claimed about the event
+	OnlySrc bool      `json:"only_source,omitempty"` // judge only source/port/outcome (C17 variants)
+	Forward bool      `json:"forward,omitempty"`     // an accepted authentication
+	Cred    string    `json:"cred,omitempty"`        // expected credential user id of the forwarded login
+	Method  string    `json:"method,omitempty"`      // expected metric method(s), "|"-separated alternatives
 }
 
 func sp(s string) *string { return &s }
